@@ -1,1 +1,59 @@
-Require Import RIO.Base.
+(* C04 — body filters never lose, duplicate or reorder response bytes.
+   Statements only; proofs in RIO.BodyPass / RIO.ChainProofs / RIO.CodecChain.
+   Proved for ALL bodies (any bytes) and ALL chunkings, on the model of FilterBodyAction (RIO.BodyText, RIO.HtmlFilter):
+     - no filter applies / cannot be built (empty list, unknown action, empty element_tree, non-HTML content type):
+       the output is the input byte for byte (C04_nothing_applies);
+     - a stage fails: the failing chunk and all later chunks pass through (C04_error_passthrough), and the HTML stage
+       first releases every byte it was holding back (C04_html_error_releases), then is the identity (C04_html_in_error);
+     - insert-only text filters: output = prepended values ++ input ++ appended values (C04_text_insert_only).
+   PARTIAL: for the HTML append / prepend / replace stages the content clause (output = input plus insertions /
+   minus whole element spans) is decided by the correspondence run on damaged documents, not by a theorem. *)
+Require Import RIO.Base RIO.TokMonad RIO.HtmlTok RIO.BodyText RIO.HtmlFilter RIO.ChainProofs RIO.BodyProofs RIO.CodecChain RIO.BodyPass.
+Close Scope N_scope.
+
+Theorem C04_nothing_applies : forall lower sel ctok fs chunks,
+  (forall f, In f fs -> unbuildable ctok f) ->
+  body_run lower sel ctok fs chunks = concat chunks.
+Proof. intros. apply no_stage_passthrough'. apply unbuildable_no_stage. assumption. Qed.
+
+Theorem C04_error_passthrough : forall stage s_filter s_end (f : fba stage) c cs,
+  fb_in_error f = false -> chain_filter stage s_filter (fb_chain f) c = None ->
+  fba_run stage s_filter s_end f (c :: cs) = concat (c :: cs).
+Proof. exact fba_error_at. Qed.
+
+Theorem C04_html_error_releases : forall lower sel F input,
+  f_in_error F = false -> do_filter lower sel F input = RErr ->
+  snd (hfb_filter lower sel F input) = held F ++ input
+  /\ held (fst (hfb_filter lower sel F input)) = []
+  /\ f_in_error (fst (hfb_filter lower sel F input)) = true.
+Proof. exact hfb_error_releases. Qed.
+
+Theorem C04_html_in_error : forall lower sel F input, f_in_error F = true -> hfb_filter lower sel F input = (F, input).
+Proof. exact hfb_in_error_identity. Qed.
+
+Theorem C04_text_insert_only : forall lower sel ctok fs chunks,
+  (forall f, In f fs -> insert_only_text f) ->
+  chunks = [] \/ concat chunks <> [] ->
+  body_run lower sel ctok fs chunks
+  = pre_of (stages_of ctok fs) ++ concat chunks ++ app_of (stages_of ctok fs).
+Proof.
+  intros lower sel ctok fs chunks Hf Hc. rewrite body_run_total. apply insert_only_run; [|exact Hc].
+  apply insert_only_stages. exact Hf.
+Qed.
+
+(* the inserted values, concretely: prepends innermost-last, appends in order *)
+Example C04_example : forall lower sel body, body <> [] ->
+  body_run lower sel true [BFText TPrepend [1]%N; BFText TAppend [2]%N; BFText TPrepend [3]%N; BFText TAppend [4]%N] [body]
+  = [3;1]%N ++ body ++ [2;4]%N.
+Proof.
+  intros lower sel body Hb. rewrite C04_text_insert_only.
+  - cbn. rewrite app_nil_r. reflexivity.
+  - intros f [<-|[<-|[<-|[<-|[]]]]]; exact I.
+  - right. cbn. rewrite app_nil_r. exact Hb.
+Qed.
+
+Print Assumptions C04_nothing_applies.
+Print Assumptions C04_error_passthrough.
+Print Assumptions C04_html_error_releases.
+Print Assumptions C04_html_in_error.
+Print Assumptions C04_text_insert_only.
